@@ -53,3 +53,13 @@ Print Assumptions C05_variant_reach.
 Print Assumptions C05_langid.
 Print Assumptions C05_langid_reach.
 Print Assumptions C05_idempotent_langid.
+
+(* C05's view of a history transcript: every step's re-parse verdict, read back out of the model's transcript, is
+   "same" (proofs/OracleSoundViews.v) *)
+From UL Require Oracle OracleSoundViews.
+From Coq Require Import String.
+Theorem C05_history_steps_reparse : forall args,
+  Oracle.starts_with (bs "BAD"%string) (Oracle.model_hist args) = false ->
+  forallb (fun st => beqb (Oracle.step_reparse st) (bs "same"%string)) (Oracle.hist_steps (Oracle.model_hist args)) = true.
+Proof. intros args H. exact (proj2 (OracleSoundViews.hist_views args H)). Qed.
+Print Assumptions C05_history_steps_reparse.
